@@ -107,7 +107,8 @@ public:
 
     //! Allocate space for n objects.
     pointer allocate( size_type n, const void* /*hint*/ = nullptr) {
-        pointer p = static_cast<pointer>( my_pool->malloc( n*sizeof(value_type) ) );
+        // n*sizeof(value_type) must be representable: a wrapped product would be served by a tiny block
+        pointer p = n <= ~size_type(0) / sizeof(value_type) ? static_cast<pointer>( my_pool->malloc( n*sizeof(value_type) ) ) : nullptr;
         if (!p)
             throw_exception(std::bad_alloc());
         return p;
